@@ -122,4 +122,7 @@ Example C05_f64_example :
     = RTo (@only F64 13 9 (ndy 1 0)) None /\
   route (KBin (ndy (-3) 0) (ndy 7 0)) 13 (VNum (ndy 7 0)) (ndy 1 0)
     = RTo (@only F64 13 11 (ndy 1 0)) None.
-Proof. split; vm_compute; reflexivity. Qed.
+(* plain [reflexivity] (kernel lazy conversion computes the primitive floats): [vm_compute] on the
+   goal would strongly normalise the type argument [routed F64] of [eq], i.e. the whole F64
+   record including Prim2SF under binders, which does not finish *)
+Proof. split; reflexivity. Qed.
